@@ -148,7 +148,42 @@ type callDef struct {
 	fam   string // method family
 	merge string // merging clause family ("" = replaces instead of merging)
 	f     func(db *gorm.DB) *gorm.DB
+	// calls that take a reusable handle of the tree as argument (codes >= argBase)
+	argf func(db, arg *gorm.DB) *gorm.DB
+	arg  int // handle id
 }
+
+// Calls are stored in histories as ints: an index into `calls`, or
+// argBase + 10*kind + handle id for the calls of `argCalls`, whose argument is
+// (a chain derived from) a reusable handle of the history.
+const argBase = 1000
+
+var argCalls = []callDef{
+	{text: `Where(h%d)`, fam: "arg-group", merge: "WHERE", argf: func(db, arg *gorm.DB) *gorm.DB { return db.Where(arg) }},
+	{text: `Or(h%d)`, fam: "arg-group-or", merge: "WHERE", argf: func(db, arg *gorm.DB) *gorm.DB { return db.Or(arg) }},
+	{text: `Not(h%d)`, fam: "arg-group", merge: "WHERE", argf: func(db, arg *gorm.DB) *gorm.DB { return db.Not(arg) }},
+	{text: `Where("id IN (?)",h%d.Table("users").Select("id"))`, fam: "arg-subquery", merge: "WHERE", argf: func(db, arg *gorm.DB) *gorm.DB {
+		return db.Where("id IN (?)", arg.Table("users").Select("id"))
+	}},
+	{text: `Where("age >= (?)",h%d.Model(&User{}).Select("min(age)"))`, fam: "arg-subquery", merge: "WHERE", argf: func(db, arg *gorm.DB) *gorm.DB {
+		return db.Where("age >= (?)", arg.Model(&User{}).Select("min(age)"))
+	}},
+	{text: `Joins("Company",h%d.Select("name"))`, fam: "arg-join", merge: "JOINS", argf: func(db, arg *gorm.DB) *gorm.DB {
+		return db.Joins("Company", arg.Select("name"))
+	}},
+}
+
+func def(code int) callDef {
+	if code < argBase {
+		return calls[code]
+	}
+	d := argCalls[(code-argBase)/10]
+	d.arg = (code - argBase) % 10
+	d.text = fmt.Sprintf(d.text, d.arg)
+	return d
+}
+
+func isOr(code int) bool { f := def(code).fam; return f == "or" || f == "arg-group-or" }
 
 func col(n string) clause.Column { return clause.Column{Name: n} }
 
@@ -159,147 +194,151 @@ func scopeNested(db *gorm.DB) *gorm.DB { return db.Scopes(scopeAge).Or("name = ?
 
 var calls = []callDef{
 	// Where
-	{`Where("age > ?",20)`, "where", "WHERE", func(db *gorm.DB) *gorm.DB { return db.Where("age > ?", 20) }},
-	{`Where("name = ?","u2")`, "where", "WHERE", func(db *gorm.DB) *gorm.DB { return db.Where("name = ?", "u2") }},
-	{`Where("name IN ?",[u1 u3 u5])`, "where", "WHERE", func(db *gorm.DB) *gorm.DB { return db.Where("name IN ?", xs("u1", "u3", "u5")) }},
-	{`Where(map{active:true})`, "where", "WHERE", func(db *gorm.DB) *gorm.DB { return db.Where(map[string]interface{}{"active": true}) }},
-	{`Where(&User{Name:u4})`, "where", "WHERE", func(db *gorm.DB) *gorm.DB { return db.Where(&User{Name: "u4"}) }},
-	{`Where("age < ? OR active = ?",30,false)`, "where", "WHERE", func(db *gorm.DB) *gorm.DB { return db.Where("age < ? OR active = ?", 30, false) }},
-	{`Where(Expr("company_id = ?",1))`, "where", "WHERE", func(db *gorm.DB) *gorm.DB { return db.Where(gorm.Expr("company_id = ?", 1)) }},
-	{`Where("age BETWEEN @lo AND @hi",10,40)`, "where", "WHERE", func(db *gorm.DB) *gorm.DB {
+	{text: `Where("age > ?",20)`, fam: "where", merge: "WHERE", f: func(db *gorm.DB) *gorm.DB { return db.Where("age > ?", 20) }},
+	{text: `Where("name = ?","u2")`, fam: "where", merge: "WHERE", f: func(db *gorm.DB) *gorm.DB { return db.Where("name = ?", "u2") }},
+	{text: `Where("name IN ?",[u1 u3 u5])`, fam: "where", merge: "WHERE", f: func(db *gorm.DB) *gorm.DB { return db.Where("name IN ?", xs("u1", "u3", "u5")) }},
+	{text: `Where(map{active:true})`, fam: "where", merge: "WHERE", f: func(db *gorm.DB) *gorm.DB { return db.Where(map[string]interface{}{"active": true}) }},
+	{text: `Where(&User{Name:u4})`, fam: "where", merge: "WHERE", f: func(db *gorm.DB) *gorm.DB { return db.Where(&User{Name: "u4"}) }},
+	{text: `Where("age < ? OR active = ?",30,false)`, fam: "where", merge: "WHERE", f: func(db *gorm.DB) *gorm.DB { return db.Where("age < ? OR active = ?", 30, false) }},
+	{text: `Where(Expr("company_id = ?",1))`, fam: "where", merge: "WHERE", f: func(db *gorm.DB) *gorm.DB { return db.Where(gorm.Expr("company_id = ?", 1)) }},
+	{text: `Where("age BETWEEN @lo AND @hi",10,40)`, fam: "where", merge: "WHERE", f: func(db *gorm.DB) *gorm.DB {
 		return db.Where("age BETWEEN @lo AND @hi", sql.Named("lo", 10), sql.Named("hi", 40))
 	}},
-	{`Where(IN{id,[1 2 3 6]})`, "where", "WHERE", func(db *gorm.DB) *gorm.DB {
+	{text: `Where(IN{id,[1 2 3 6]})`, fam: "where", merge: "WHERE", f: func(db *gorm.DB) *gorm.DB {
 		return db.Where(clause.IN{Column: "id", Values: xs[interface{}](1, 2, 3, 6)})
 	}},
-	{`Where("age",20)`, "where", "WHERE", func(db *gorm.DB) *gorm.DB { return db.Where("age", 20) }},
+	{text: `Where("age",20)`, fam: "where", merge: "WHERE", f: func(db *gorm.DB) *gorm.DB { return db.Where("age", 20) }},
 	// Or
-	{`Or("age > ?",40)`, "or", "WHERE", func(db *gorm.DB) *gorm.DB { return db.Or("age > ?", 40) }},
-	{`Or("name = ?","u1")`, "or", "WHERE", func(db *gorm.DB) *gorm.DB { return db.Or("name = ?", "u1") }},
-	{`Or(map{active:false})`, "or", "WHERE", func(db *gorm.DB) *gorm.DB { return db.Or(map[string]interface{}{"active": false}) }},
-	{`Or("age = ? AND active = ?",20,true)`, "or", "WHERE", func(db *gorm.DB) *gorm.DB { return db.Or("age = ? AND active = ?", 20, true) }},
+	{text: `Or("age > ?",40)`, fam: "or", merge: "WHERE", f: func(db *gorm.DB) *gorm.DB { return db.Or("age > ?", 40) }},
+	{text: `Or("name = ?","u1")`, fam: "or", merge: "WHERE", f: func(db *gorm.DB) *gorm.DB { return db.Or("name = ?", "u1") }},
+	{text: `Or(map{active:false})`, fam: "or", merge: "WHERE", f: func(db *gorm.DB) *gorm.DB { return db.Or(map[string]interface{}{"active": false}) }},
+	{text: `Or("age = ? AND active = ?",20,true)`, fam: "or", merge: "WHERE", f: func(db *gorm.DB) *gorm.DB { return db.Or("age = ? AND active = ?", 20, true) }},
 	// Not
-	{`Not("name = ?","u3")`, "not", "WHERE", func(db *gorm.DB) *gorm.DB { return db.Not("name = ?", "u3") }},
-	{`Not(map{name:[u1 u2]})`, "not", "WHERE", func(db *gorm.DB) *gorm.DB {
+	{text: `Not("name = ?","u3")`, fam: "not", merge: "WHERE", f: func(db *gorm.DB) *gorm.DB { return db.Not("name = ?", "u3") }},
+	{text: `Not(map{name:[u1 u2]})`, fam: "not", merge: "WHERE", f: func(db *gorm.DB) *gorm.DB {
 		return db.Not(map[string]interface{}{"name": xs("u1", "u2")})
 	}},
-	{`Not(&User{Age:20})`, "not", "WHERE", func(db *gorm.DB) *gorm.DB { return db.Not(&User{Age: 20}) }},
+	{text: `Not(&User{Age:20})`, fam: "not", merge: "WHERE", f: func(db *gorm.DB) *gorm.DB { return db.Not(&User{Age: 20}) }},
 	// Select
-	{`Select("name")`, "select", "", func(db *gorm.DB) *gorm.DB { return db.Select("name") }},
-	{`Select("id","name")`, "select", "", func(db *gorm.DB) *gorm.DB { return db.Select("id", "name") }},
-	{`Select([id age])`, "select", "", func(db *gorm.DB) *gorm.DB { return db.Select(xs("id", "age")) }},
-	{`Select("name, age")`, "select", "", func(db *gorm.DB) *gorm.DB { return db.Select("name, age") }},
-	{`Select([id],"name","age")`, "select", "", func(db *gorm.DB) *gorm.DB { return db.Select(xs("id"), "name", "age") }},
-	{`Select("*")`, "select", "", func(db *gorm.DB) *gorm.DB { return db.Select("*") }},
-	{`Select("name, age + ? as age",1)`, "select", "", func(db *gorm.DB) *gorm.DB { return db.Select("name, age + ? as age", 1) }},
-	{`Select("count(*) as age, name")`, "select", "", func(db *gorm.DB) *gorm.DB { return db.Select("count(*) as age, name") }},
+	{text: `Select("name")`, fam: "select", merge: "", f: func(db *gorm.DB) *gorm.DB { return db.Select("name") }},
+	{text: `Select("id","name")`, fam: "select", merge: "", f: func(db *gorm.DB) *gorm.DB { return db.Select("id", "name") }},
+	{text: `Select([id age])`, fam: "select", merge: "", f: func(db *gorm.DB) *gorm.DB { return db.Select(xs("id", "age")) }},
+	{text: `Select("name, age")`, fam: "select", merge: "", f: func(db *gorm.DB) *gorm.DB { return db.Select("name, age") }},
+	{text: `Select([id],"name","age")`, fam: "select", merge: "", f: func(db *gorm.DB) *gorm.DB { return db.Select(xs("id"), "name", "age") }},
+	{text: `Select("*")`, fam: "select", merge: "", f: func(db *gorm.DB) *gorm.DB { return db.Select("*") }},
+	{text: `Select("name, age + ? as age",1)`, fam: "select", merge: "", f: func(db *gorm.DB) *gorm.DB { return db.Select("name, age + ? as age", 1) }},
+	{text: `Select("count(*) as age, name")`, fam: "select", merge: "", f: func(db *gorm.DB) *gorm.DB { return db.Select("count(*) as age, name") }},
 	// Omit
-	{`Omit("age")`, "omit", "", func(db *gorm.DB) *gorm.DB { return db.Omit("age") }},
-	{`Omit("name","active")`, "omit", "", func(db *gorm.DB) *gorm.DB { return db.Omit("name", "active") }},
-	{`Omit("age,active")`, "omit", "", func(db *gorm.DB) *gorm.DB { return db.Omit("age,active") }},
+	{text: `Omit("age")`, fam: "omit", merge: "", f: func(db *gorm.DB) *gorm.DB { return db.Omit("age") }},
+	{text: `Omit("name","active")`, fam: "omit", merge: "", f: func(db *gorm.DB) *gorm.DB { return db.Omit("name", "active") }},
+	{text: `Omit("age,active")`, fam: "omit", merge: "", f: func(db *gorm.DB) *gorm.DB { return db.Omit("age,active") }},
 	// Order
-	{`Order("age desc")`, "order", "ORDER", func(db *gorm.DB) *gorm.DB { return db.Order("age desc") }},
-	{`Order("name")`, "order", "ORDER", func(db *gorm.DB) *gorm.DB { return db.Order("name") }},
-	{`Order("id")`, "order", "ORDER", func(db *gorm.DB) *gorm.DB { return db.Order("id") }},
-	{`Order("active, id desc")`, "order", "ORDER", func(db *gorm.DB) *gorm.DB { return db.Order("active, id desc") }},
-	{`Order(Column{company_id desc})`, "order", "ORDER", func(db *gorm.DB) *gorm.DB {
+	{text: `Order("age desc")`, fam: "order", merge: "ORDER", f: func(db *gorm.DB) *gorm.DB { return db.Order("age desc") }},
+	{text: `Order("name")`, fam: "order", merge: "ORDER", f: func(db *gorm.DB) *gorm.DB { return db.Order("name") }},
+	{text: `Order("id")`, fam: "order", merge: "ORDER", f: func(db *gorm.DB) *gorm.DB { return db.Order("id") }},
+	{text: `Order("active, id desc")`, fam: "order", merge: "ORDER", f: func(db *gorm.DB) *gorm.DB { return db.Order("active, id desc") }},
+	{text: `Order(Column{company_id desc})`, fam: "order", merge: "ORDER", f: func(db *gorm.DB) *gorm.DB {
 		return db.Order(clause.OrderByColumn{Column: col("company_id"), Desc: true})
 	}},
-	{`Order(OrderBy{[name desc,age]})`, "order", "ORDER", func(db *gorm.DB) *gorm.DB {
+	{text: `Order(OrderBy{[name desc,age]})`, fam: "order", merge: "ORDER", f: func(db *gorm.DB) *gorm.DB {
 		return db.Order(clause.OrderBy{Columns: xs(clause.OrderByColumn{Column: col("name"), Desc: true}, clause.OrderByColumn{Column: col("age")})})
 	}},
-	{`Order(Column{id reorder})`, "order", "ORDER", func(db *gorm.DB) *gorm.DB {
+	{text: `Order(Column{id reorder})`, fam: "order", merge: "ORDER", f: func(db *gorm.DB) *gorm.DB {
 		return db.Order(clause.OrderByColumn{Column: col("id"), Reorder: true})
 	}},
 	// Limit / Offset
-	{`Limit(1)`, "limit", "", func(db *gorm.DB) *gorm.DB { return db.Limit(1) }},
-	{`Limit(3)`, "limit", "", func(db *gorm.DB) *gorm.DB { return db.Limit(3) }},
-	{`Limit(-1)`, "limit", "", func(db *gorm.DB) *gorm.DB { return db.Limit(-1) }},
-	{`Offset(1)`, "offset", "", func(db *gorm.DB) *gorm.DB { return db.Offset(1) }},
-	{`Offset(2)`, "offset", "", func(db *gorm.DB) *gorm.DB { return db.Offset(2) }},
-	{`Offset(-1)`, "offset", "", func(db *gorm.DB) *gorm.DB { return db.Offset(-1) }},
+	{text: `Limit(1)`, fam: "limit", merge: "", f: func(db *gorm.DB) *gorm.DB { return db.Limit(1) }},
+	{text: `Limit(3)`, fam: "limit", merge: "", f: func(db *gorm.DB) *gorm.DB { return db.Limit(3) }},
+	{text: `Limit(-1)`, fam: "limit", merge: "", f: func(db *gorm.DB) *gorm.DB { return db.Limit(-1) }},
+	{text: `Offset(1)`, fam: "offset", merge: "", f: func(db *gorm.DB) *gorm.DB { return db.Offset(1) }},
+	{text: `Offset(2)`, fam: "offset", merge: "", f: func(db *gorm.DB) *gorm.DB { return db.Offset(2) }},
+	{text: `Offset(-1)`, fam: "offset", merge: "", f: func(db *gorm.DB) *gorm.DB { return db.Offset(-1) }},
 	// Group / Having
-	{`Group("name")`, "group", "GROUP", func(db *gorm.DB) *gorm.DB { return db.Group("name") }},
-	{`Group("active")`, "group", "GROUP", func(db *gorm.DB) *gorm.DB { return db.Group("active") }},
-	{`Group("company_id")`, "group", "GROUP", func(db *gorm.DB) *gorm.DB { return db.Group("company_id") }},
-	{`Group("age")`, "group", "GROUP", func(db *gorm.DB) *gorm.DB { return db.Group("age") }},
-	{`Having("count(*) > ?",0)`, "having", "GROUP", func(db *gorm.DB) *gorm.DB { return db.Having("count(*) > ?", 0) }},
-	{`Having("max(age) > ?",10)`, "having", "GROUP", func(db *gorm.DB) *gorm.DB { return db.Having("max(age) > ?", 10) }},
-	{`Having("min(id) < ?",6)`, "having", "GROUP", func(db *gorm.DB) *gorm.DB { return db.Having("min(id) < ?", 6) }},
+	{text: `Group("name")`, fam: "group", merge: "GROUP", f: func(db *gorm.DB) *gorm.DB { return db.Group("name") }},
+	{text: `Group("active")`, fam: "group", merge: "GROUP", f: func(db *gorm.DB) *gorm.DB { return db.Group("active") }},
+	{text: `Group("company_id")`, fam: "group", merge: "GROUP", f: func(db *gorm.DB) *gorm.DB { return db.Group("company_id") }},
+	{text: `Group("age")`, fam: "group", merge: "GROUP", f: func(db *gorm.DB) *gorm.DB { return db.Group("age") }},
+	{text: `Having("count(*) > ?",0)`, fam: "having", merge: "GROUP", f: func(db *gorm.DB) *gorm.DB { return db.Having("count(*) > ?", 0) }},
+	{text: `Having("max(age) > ?",10)`, fam: "having", merge: "GROUP", f: func(db *gorm.DB) *gorm.DB { return db.Having("max(age) > ?", 10) }},
+	{text: `Having("min(id) < ?",6)`, fam: "having", merge: "GROUP", f: func(db *gorm.DB) *gorm.DB { return db.Having("min(id) < ?", 6) }},
 	// Joins
-	{`Joins("Company")`, "joins", "JOINS", func(db *gorm.DB) *gorm.DB { return db.Joins("Company") }},
-	{`InnerJoins("Company")`, "joins", "JOINS", func(db *gorm.DB) *gorm.DB { return db.InnerJoins("Company") }},
-	{`Joins("JOIN companies j1 …",c1)`, "joins", "JOINS", func(db *gorm.DB) *gorm.DB {
+	{text: `Joins("Company")`, fam: "joins", merge: "JOINS", f: func(db *gorm.DB) *gorm.DB { return db.Joins("Company") }},
+	{text: `InnerJoins("Company")`, fam: "joins", merge: "JOINS", f: func(db *gorm.DB) *gorm.DB { return db.InnerJoins("Company") }},
+	{text: `Joins("JOIN companies j1 …",c1)`, fam: "joins", merge: "JOINS", f: func(db *gorm.DB) *gorm.DB {
 		return db.Joins("JOIN companies j1 ON j1.id = users.company_id AND j1.name = ?", "c1")
 	}},
-	{`Joins("LEFT JOIN companies j2 …")`, "joins", "JOINS", func(db *gorm.DB) *gorm.DB {
+	{text: `Joins("LEFT JOIN companies j2 …")`, fam: "joins", merge: "JOINS", f: func(db *gorm.DB) *gorm.DB {
 		return db.Joins("LEFT JOIN companies j2 ON j2.id = users.company_id")
 	}},
-	{`Joins("LEFT JOIN companies j3 …",0)`, "joins", "JOINS", func(db *gorm.DB) *gorm.DB {
+	{text: `Joins("LEFT JOIN companies j3 …",0)`, fam: "joins", merge: "JOINS", f: func(db *gorm.DB) *gorm.DB {
 		return db.Joins("LEFT JOIN companies j3 ON j3.id = users.company_id AND j3.id > ?", 0)
 	}},
-	{`Joins("JOIN companies j4 …")`, "joins", "JOINS", func(db *gorm.DB) *gorm.DB {
+	{text: `Joins("JOIN companies j4 …")`, fam: "joins", merge: "JOINS", f: func(db *gorm.DB) *gorm.DB {
 		return db.Joins("JOIN companies j4 ON j4.id = users.company_id")
 	}},
 	// Distinct / Unscoped
-	{`Distinct()`, "distinct", "", func(db *gorm.DB) *gorm.DB { return db.Distinct() }},
-	{`Distinct("name")`, "distinct", "", func(db *gorm.DB) *gorm.DB { return db.Distinct("name") }},
-	{`Distinct("name","age")`, "distinct", "", func(db *gorm.DB) *gorm.DB { return db.Distinct("name", "age") }},
-	{`Unscoped()`, "unscoped", "", func(db *gorm.DB) *gorm.DB { return db.Unscoped() }},
+	{text: `Distinct()`, fam: "distinct", merge: "", f: func(db *gorm.DB) *gorm.DB { return db.Distinct() }},
+	{text: `Distinct("name")`, fam: "distinct", merge: "", f: func(db *gorm.DB) *gorm.DB { return db.Distinct("name") }},
+	{text: `Distinct("name","age")`, fam: "distinct", merge: "", f: func(db *gorm.DB) *gorm.DB { return db.Distinct("name", "age") }},
+	{text: `Unscoped()`, fam: "unscoped", merge: "", f: func(db *gorm.DB) *gorm.DB { return db.Unscoped() }},
 	// Scopes
-	{`Scopes(age)`, "scopes", "SCOPES", func(db *gorm.DB) *gorm.DB { return db.Scopes(scopeAge) }},
-	{`Scopes(order)`, "scopes", "SCOPES", func(db *gorm.DB) *gorm.DB { return db.Scopes(scopeOrder) }},
-	{`Scopes(active,order)`, "scopes", "SCOPES", func(db *gorm.DB) *gorm.DB { return db.Scopes(xs(scopeActive, scopeOrder)...) }},
-	{`Scopes(nested)`, "scopes", "SCOPES", func(db *gorm.DB) *gorm.DB { return db.Scopes(scopeNested) }},
+	{text: `Scopes(age)`, fam: "scopes", merge: "SCOPES", f: func(db *gorm.DB) *gorm.DB { return db.Scopes(scopeAge) }},
+	{text: `Scopes(order)`, fam: "scopes", merge: "SCOPES", f: func(db *gorm.DB) *gorm.DB { return db.Scopes(scopeOrder) }},
+	{text: `Scopes(active,order)`, fam: "scopes", merge: "SCOPES", f: func(db *gorm.DB) *gorm.DB { return db.Scopes(xs(scopeActive, scopeOrder)...) }},
+	{text: `Scopes(nested)`, fam: "scopes", merge: "SCOPES", f: func(db *gorm.DB) *gorm.DB { return db.Scopes(scopeNested) }},
 	// Clauses(Returning)
-	{`Clauses(Returning{id})`, "returning", "RETURNING", func(db *gorm.DB) *gorm.DB { return db.Clauses(clause.Returning{Columns: xs(col("id"))}) }},
-	{`Clauses(Returning{name})`, "returning", "RETURNING", func(db *gorm.DB) *gorm.DB { return db.Clauses(clause.Returning{Columns: xs(col("name"))}) }},
-	{`Clauses(Returning{age})`, "returning", "RETURNING", func(db *gorm.DB) *gorm.DB { return db.Clauses(clause.Returning{Columns: xs(col("age"))}) }},
-	{`Clauses(Returning{active})`, "returning", "RETURNING", func(db *gorm.DB) *gorm.DB { return db.Clauses(clause.Returning{Columns: xs(col("active"))}) }},
-	{`Clauses(Returning{company_id})`, "returning", "RETURNING", func(db *gorm.DB) *gorm.DB {
+	{text: `Clauses(Returning{id})`, fam: "returning", merge: "RETURNING", f: func(db *gorm.DB) *gorm.DB { return db.Clauses(clause.Returning{Columns: xs(col("id"))}) }},
+	{text: `Clauses(Returning{name})`, fam: "returning", merge: "RETURNING", f: func(db *gorm.DB) *gorm.DB { return db.Clauses(clause.Returning{Columns: xs(col("name"))}) }},
+	{text: `Clauses(Returning{age})`, fam: "returning", merge: "RETURNING", f: func(db *gorm.DB) *gorm.DB { return db.Clauses(clause.Returning{Columns: xs(col("age"))}) }},
+	{text: `Clauses(Returning{active})`, fam: "returning", merge: "RETURNING", f: func(db *gorm.DB) *gorm.DB { return db.Clauses(clause.Returning{Columns: xs(col("active"))}) }},
+	{text: `Clauses(Returning{company_id})`, fam: "returning", merge: "RETURNING", f: func(db *gorm.DB) *gorm.DB {
 		return db.Clauses(clause.Returning{Columns: xs(col("company_id"))})
 	}},
-	{`Clauses(Returning{id,name})`, "returning", "RETURNING", func(db *gorm.DB) *gorm.DB {
+	{text: `Clauses(Returning{id,name})`, fam: "returning", merge: "RETURNING", f: func(db *gorm.DB) *gorm.DB {
 		return db.Clauses(clause.Returning{Columns: xs(col("id"), col("name"))})
 	}},
-	{`Clauses(Returning{})`, "returning", "RETURNING", func(db *gorm.DB) *gorm.DB { return db.Clauses(clause.Returning{}) }},
+	{text: `Clauses(Returning{})`, fam: "returning", merge: "RETURNING", f: func(db *gorm.DB) *gorm.DB { return db.Clauses(clause.Returning{}) }},
 	// Clauses(OrderBy)
-	{`Clauses(OrderBy{age})`, "corder", "ORDER", func(db *gorm.DB) *gorm.DB {
+	{text: `Clauses(OrderBy{age})`, fam: "corder", merge: "ORDER", f: func(db *gorm.DB) *gorm.DB {
 		return db.Clauses(clause.OrderBy{Columns: xs(clause.OrderByColumn{Column: col("age")})})
 	}},
-	{`Clauses(OrderBy{name desc,id})`, "corder", "ORDER", func(db *gorm.DB) *gorm.DB {
+	{text: `Clauses(OrderBy{name desc,id})`, fam: "corder", merge: "ORDER", f: func(db *gorm.DB) *gorm.DB {
 		return db.Clauses(clause.OrderBy{Columns: xs(clause.OrderByColumn{Column: col("name"), Desc: true}, clause.OrderByColumn{Column: col("id")})})
 	}},
-	{`Clauses(OrderBy{Expr id = ? desc})`, "corder", "ORDER", func(db *gorm.DB) *gorm.DB {
+	{text: `Clauses(OrderBy{Expr id = ? desc})`, fam: "corder", merge: "ORDER", f: func(db *gorm.DB) *gorm.DB {
 		return db.Clauses(clause.OrderBy{Expression: clause.Expr{SQL: "id = ? desc", Vars: xs[interface{}](3)}})
 	}},
 	// Clauses(Locking)
-	{`Clauses(Locking{UPDATE})`, "locking", "", func(db *gorm.DB) *gorm.DB { return db.Clauses(clause.Locking{Strength: "UPDATE"}) }},
-	{`Clauses(Locking{SHARE NOWAIT})`, "locking", "", func(db *gorm.DB) *gorm.DB {
+	{text: `Clauses(Locking{UPDATE})`, fam: "locking", merge: "", f: func(db *gorm.DB) *gorm.DB { return db.Clauses(clause.Locking{Strength: "UPDATE"}) }},
+	{text: `Clauses(Locking{SHARE NOWAIT})`, fam: "locking", merge: "", f: func(db *gorm.DB) *gorm.DB {
 		return db.Clauses(clause.Locking{Strength: "SHARE", Options: "NOWAIT"})
 	}},
 	// Clauses(OnConflict)
-	{`Clauses(OnConflict{DoNothing})`, "onconflict", "", func(db *gorm.DB) *gorm.DB { return db.Clauses(clause.OnConflict{DoNothing: true}) }},
-	{`Clauses(OnConflict{id→name})`, "onconflict", "", func(db *gorm.DB) *gorm.DB {
+	{text: `Clauses(OnConflict{DoNothing})`, fam: "onconflict", merge: "", f: func(db *gorm.DB) *gorm.DB { return db.Clauses(clause.OnConflict{DoNothing: true}) }},
+	{text: `Clauses(OnConflict{id→name})`, fam: "onconflict", merge: "", f: func(db *gorm.DB) *gorm.DB {
 		return db.Clauses(clause.OnConflict{Columns: xs(col("id")), DoUpdates: clause.AssignmentColumns(xs("name"))})
 	}},
-	{`Clauses(OnConflict{UpdateAll})`, "onconflict", "", func(db *gorm.DB) *gorm.DB { return db.Clauses(clause.OnConflict{UpdateAll: true}) }},
+	{text: `Clauses(OnConflict{UpdateAll})`, fam: "onconflict", merge: "", f: func(db *gorm.DB) *gorm.DB { return db.Clauses(clause.OnConflict{UpdateAll: true}) }},
 	// Clauses(other merging clauses)
-	{`Clauses(Where{age>=20,id<6})`, "cwhere", "WHERE", func(db *gorm.DB) *gorm.DB {
+	{text: `Clauses(Where{age>=20,id<6})`, fam: "cwhere", merge: "WHERE", f: func(db *gorm.DB) *gorm.DB {
 		return db.Clauses(clause.Where{Exprs: xs[clause.Expression](clause.Gte{Column: "age", Value: 20}, clause.Lt{Column: "id", Value: 6})})
 	}},
-	{`Clauses(Eq{active,true})`, "cwhere", "WHERE", func(db *gorm.DB) *gorm.DB { return db.Clauses(clause.Eq{Column: "active", Value: true}) }},
-	{`Clauses(GroupBy{name;having count>0})`, "cgroup", "GROUP", func(db *gorm.DB) *gorm.DB {
+	{text: `Clauses(Eq{active,true})`, fam: "cwhere", merge: "WHERE", f: func(db *gorm.DB) *gorm.DB { return db.Clauses(clause.Eq{Column: "active", Value: true}) }},
+	{text: `Clauses(GroupBy{name;having count>0})`, fam: "cgroup", merge: "GROUP", f: func(db *gorm.DB) *gorm.DB {
 		return db.Clauses(clause.GroupBy{Columns: xs(col("name")), Having: xs[clause.Expression](clause.Expr{SQL: "count(*) > ?", Vars: xs[interface{}](0)})})
 	}},
-	{`Clauses(Limit{2})`, "climit", "", func(db *gorm.DB) *gorm.DB { n := 2; return db.Clauses(clause.Limit{Limit: &n}) }},
+	{text: `Clauses(Limit{2})`, fam: "climit", merge: "", f: func(db *gorm.DB) *gorm.DB { n := 2; return db.Clauses(clause.Limit{Limit: &n}) }},
+	// Preload (a map entry per name on the statement)
+	{text: `Preload("Company")`, fam: "preload", merge: "", f: func(db *gorm.DB) *gorm.DB { return db.Preload("Company") }},
+	{text: `Preload("Company","name = ?","c1")`, fam: "preload", merge: "", f: func(db *gorm.DB) *gorm.DB { return db.Preload("Company", "name = ?", "c1") }},
+	{text: `Preload(Associations)`, fam: "preload", merge: "", f: func(db *gorm.DB) *gorm.DB { return db.Preload(clause.Associations) }},
 	// Table / Model
-	{`Table("users")`, "table", "", func(db *gorm.DB) *gorm.DB { return db.Table("users") }},
-	{`Table("users AS u")`, "table", "", func(db *gorm.DB) *gorm.DB { return db.Table("users AS u") }},
-	{`Table("companies")`, "table", "", func(db *gorm.DB) *gorm.DB { return db.Table("companies") }},
-	{`Model(&User{})`, "model", "", func(db *gorm.DB) *gorm.DB { return db.Model(&User{}) }},
-	{`Model(&User{ID:2})`, "model", "", func(db *gorm.DB) *gorm.DB { return db.Model(&User{ID: 2}) }},
-	{`Model(&Company{})`, "model", "", func(db *gorm.DB) *gorm.DB { return db.Model(&Company{}) }},
+	{text: `Table("users")`, fam: "table", merge: "", f: func(db *gorm.DB) *gorm.DB { return db.Table("users") }},
+	{text: `Table("users AS u")`, fam: "table", merge: "", f: func(db *gorm.DB) *gorm.DB { return db.Table("users AS u") }},
+	{text: `Table("companies")`, fam: "table", merge: "", f: func(db *gorm.DB) *gorm.DB { return db.Table("companies") }},
+	{text: `Model(&User{})`, fam: "model", merge: "", f: func(db *gorm.DB) *gorm.DB { return db.Model(&User{}) }},
+	{text: `Model(&User{ID:2})`, fam: "model", merge: "", f: func(db *gorm.DB) *gorm.DB { return db.Model(&User{ID: 2}) }},
+	{text: `Model(&Company{})`, fam: "model", merge: "", f: func(db *gorm.DB) *gorm.DB { return db.Model(&Company{}) }},
 }
 
 var (
@@ -339,9 +378,13 @@ func init() {
 		howIndex[h.text] = i
 	}
 	for i, f := range fins {
-		if !f.write {
-			readFins = append(readFins, i)
+		if _, ok := finsByKind[f.kind]; !ok {
+			finKinds = append(finKinds, f.kind)
+			if !f.write {
+				readKinds = append(readKinds, f.kind)
+			}
 		}
+		finsByKind[f.kind] = append(finsByKind[f.kind], i)
 	}
 }
 
@@ -351,71 +394,106 @@ type finDef struct {
 	text  string
 	kind  string
 	write bool
+	needs bool // needs a Model/Table call on the chain (the destination names no table)
 	// f runs the finisher and returns the resulting *gorm.DB and the destination(s) to render
 	f func(db *gorm.DB) (*gorm.DB, interface{})
 }
 
 var fins = []finDef{
-	{`Find(&[]User)`, "find", false, func(db *gorm.DB) (*gorm.DB, interface{}) { var d []User; return db.Find(&d), &d }},
-	{`Find(&[]User,"age > ?",25)`, "find", false, func(db *gorm.DB) (*gorm.DB, interface{}) { var d []User; return db.Find(&d, "age > ?", 25), &d }},
-	{`Find(&[]User,[1 2 6])`, "find", false, func(db *gorm.DB) (*gorm.DB, interface{}) { var d []User; return db.Find(&d, xs(1, 2, 6)), &d }},
-	{`Find(&[]Company)`, "find", false, func(db *gorm.DB) (*gorm.DB, interface{}) { var d []Company; return db.Find(&d), &d }},
-	{`Find(&[]map)`, "find", false, func(db *gorm.DB) (*gorm.DB, interface{}) { var d []map[string]interface{}; return db.Find(&d), &d }},
-	{`Find(&[]nameAge)`, "find", false, func(db *gorm.DB) (*gorm.DB, interface{}) { var d []nameAge; return db.Find(&d), &d }},
-	{`First(&User)`, "first", false, func(db *gorm.DB) (*gorm.DB, interface{}) { var d User; return db.First(&d), &d }},
-	{`First(&User,2)`, "first", false, func(db *gorm.DB) (*gorm.DB, interface{}) { var d User; return db.First(&d, 2), &d }},
-	{`Take(&User)`, "first", false, func(db *gorm.DB) (*gorm.DB, interface{}) { var d User; return db.Take(&d), &d }},
-	{`Last(&User)`, "first", false, func(db *gorm.DB) (*gorm.DB, interface{}) { var d User; return db.Last(&d), &d }},
-	{`Last(&Company)`, "first", false, func(db *gorm.DB) (*gorm.DB, interface{}) { var d Company; return db.Last(&d), &d }},
-	{`Count`, "count", false, func(db *gorm.DB) (*gorm.DB, interface{}) { var n int64; return db.Count(&n), &n }},
-	{`Pluck("name")`, "pluck", false, func(db *gorm.DB) (*gorm.DB, interface{}) { var d []string; return db.Pluck("name", &d), &d }},
-	{`Pluck("id")`, "pluck", false, func(db *gorm.DB) (*gorm.DB, interface{}) { var d []int64; return db.Pluck("id", &d), &d }},
-	{`Pluck("age")`, "pluck", false, func(db *gorm.DB) (*gorm.DB, interface{}) { var d []int; return db.Pluck("age", &d), &d }},
-	{`Scan(&[]nameAge)`, "scan", false, func(db *gorm.DB) (*gorm.DB, interface{}) { var d []nameAge; return db.Scan(&d), &d }},
+	{`Find(&[]User)`, "find", false, false, func(db *gorm.DB) (*gorm.DB, interface{}) { var d []User; return db.Find(&d), &d }},
+	{`Find(&[]User,"age > ?",25)`, "find", false, false, func(db *gorm.DB) (*gorm.DB, interface{}) { var d []User; return db.Find(&d, "age > ?", 25), &d }},
+	{`Find(&[]User,[1 2 6])`, "find", false, false, func(db *gorm.DB) (*gorm.DB, interface{}) { var d []User; return db.Find(&d, xs(1, 2, 6)), &d }},
+	{`Find(&[]Company)`, "find", false, false, func(db *gorm.DB) (*gorm.DB, interface{}) { var d []Company; return db.Find(&d), &d }},
+	{`Find(&[]map)`, "find", false, true, func(db *gorm.DB) (*gorm.DB, interface{}) { var d []map[string]interface{}; return db.Find(&d), &d }},
+	{`Find(&[]nameAge)`, "find", false, true, func(db *gorm.DB) (*gorm.DB, interface{}) { var d []nameAge; return db.Find(&d), &d }},
+	{`First(&User)`, "first", false, false, func(db *gorm.DB) (*gorm.DB, interface{}) { var d User; return db.First(&d), &d }},
+	{`First(&User,2)`, "first", false, false, func(db *gorm.DB) (*gorm.DB, interface{}) { var d User; return db.First(&d, 2), &d }},
+	{`Take(&User)`, "first", false, false, func(db *gorm.DB) (*gorm.DB, interface{}) { var d User; return db.Take(&d), &d }},
+	{`Last(&User)`, "first", false, false, func(db *gorm.DB) (*gorm.DB, interface{}) { var d User; return db.Last(&d), &d }},
+	{`Last(&Company)`, "first", false, false, func(db *gorm.DB) (*gorm.DB, interface{}) { var d Company; return db.Last(&d), &d }},
+	{`Count`, "count", false, true, func(db *gorm.DB) (*gorm.DB, interface{}) { var n int64; return db.Count(&n), &n }},
+	{`Pluck("name")`, "pluck", false, true, func(db *gorm.DB) (*gorm.DB, interface{}) { var d []string; return db.Pluck("name", &d), &d }},
+	{`Pluck("id")`, "pluck", false, true, func(db *gorm.DB) (*gorm.DB, interface{}) { var d []int64; return db.Pluck("id", &d), &d }},
+	{`Pluck("age")`, "pluck", false, true, func(db *gorm.DB) (*gorm.DB, interface{}) { var d []int; return db.Pluck("age", &d), &d }},
+	{`Scan(&[]nameAge)`, "scan", false, true, func(db *gorm.DB) (*gorm.DB, interface{}) { var d []nameAge; return db.Scan(&d), &d }},
 	// writes
-	{`Updates(map{age:55})`, "update", true, func(db *gorm.DB) (*gorm.DB, interface{}) {
+	{`Updates(map{age:55})`, "update", true, true, func(db *gorm.DB) (*gorm.DB, interface{}) {
 		return db.Updates(map[string]interface{}{"age": 55}), nil
 	}},
-	{`Updates(map{active:false,name:"w"})`, "update", true, func(db *gorm.DB) (*gorm.DB, interface{}) {
+	{`Updates(map{active:false,name:"w"})`, "update", true, true, func(db *gorm.DB) (*gorm.DB, interface{}) {
 		return db.Updates(map[string]interface{}{"name": "w", "active": false}), nil
 	}},
-	{`Updates(User{Name:x,Age:9})`, "update", true, func(db *gorm.DB) (*gorm.DB, interface{}) { return db.Updates(User{Name: "x", Age: 9}), nil }},
-	{`Updates(&User{ID:3,Name:y})`, "update", true, func(db *gorm.DB) (*gorm.DB, interface{}) {
+	{`Updates(User{Name:x,Age:9})`, "update", true, true, func(db *gorm.DB) (*gorm.DB, interface{}) { return db.Updates(User{Name: "x", Age: 9}), nil }},
+	{`Updates(&User{ID:3,Name:y})`, "update", true, false, func(db *gorm.DB) (*gorm.DB, interface{}) {
 		d := &User{ID: 3, Name: "y"}
 		return db.Updates(d), d
 	}},
-	{`Update("name","z")`, "update", true, func(db *gorm.DB) (*gorm.DB, interface{}) { return db.Update("name", "z"), nil }},
-	{`UpdateColumn("age",Expr(age+?,1))`, "update", true, func(db *gorm.DB) (*gorm.DB, interface{}) {
+	{`Update("name","z")`, "update", true, true, func(db *gorm.DB) (*gorm.DB, interface{}) { return db.Update("name", "z"), nil }},
+	{`UpdateColumn("age",Expr(age+?,1))`, "update", true, true, func(db *gorm.DB) (*gorm.DB, interface{}) {
 		return db.UpdateColumn("age", gorm.Expr("age + ?", 1)), nil
 	}},
-	{`Delete(&User{})`, "delete", true, func(db *gorm.DB) (*gorm.DB, interface{}) { d := &User{}; return db.Delete(d), d }},
-	{`Delete(&User{},3)`, "delete", true, func(db *gorm.DB) (*gorm.DB, interface{}) { d := &User{}; return db.Delete(d, 3), d }},
-	{`Delete(&User{ID:2})`, "delete", true, func(db *gorm.DB) (*gorm.DB, interface{}) { d := &User{ID: 2}; return db.Delete(d), d }},
-	{`Delete(&[]User)`, "delete", true, func(db *gorm.DB) (*gorm.DB, interface{}) { var d []User; return db.Delete(&d), &d }},
-	{`Create(&User{n})`, "create", true, func(db *gorm.DB) (*gorm.DB, interface{}) {
+	{`Delete(&User{})`, "delete", true, false, func(db *gorm.DB) (*gorm.DB, interface{}) { d := &User{}; return db.Delete(d), d }},
+	{`Delete(&User{},3)`, "delete", true, false, func(db *gorm.DB) (*gorm.DB, interface{}) { d := &User{}; return db.Delete(d, 3), d }},
+	{`Delete(&User{ID:2})`, "delete", true, false, func(db *gorm.DB) (*gorm.DB, interface{}) { d := &User{ID: 2}; return db.Delete(d), d }},
+	{`Delete(&[]User)`, "delete", true, false, func(db *gorm.DB) (*gorm.DB, interface{}) { var d []User; return db.Delete(&d), &d }},
+	{`Create(&User{n})`, "create", true, false, func(db *gorm.DB) (*gorm.DB, interface{}) {
 		d := &User{Name: "n", Age: 7, CompanyID: 1}
 		return db.Create(d), d
 	}},
-	{`Create(&User{ID:1})`, "create", true, func(db *gorm.DB) (*gorm.DB, interface{}) {
+	{`Create(&User{ID:1})`, "create", true, false, func(db *gorm.DB) (*gorm.DB, interface{}) {
 		d := &User{ID: 1, Name: "dup", Age: 8, CompanyID: 2}
 		return db.Create(d), d
 	}},
-	{`Create(&[]User{a,b})`, "create", true, func(db *gorm.DB) (*gorm.DB, interface{}) {
+	{`Create(&[]User{a,b})`, "create", true, false, func(db *gorm.DB) (*gorm.DB, interface{}) {
 		d := xs(User{Name: "a", Age: 1, CompanyID: 1}, User{Name: "b", Age: 2, CompanyID: 2})
 		return db.Create(&d), &d
 	}},
-	{`Create(map{name:m})`, "create", true, func(db *gorm.DB) (*gorm.DB, interface{}) {
+	{`Create(map{name:m})`, "create", true, true, func(db *gorm.DB) (*gorm.DB, interface{}) {
 		return db.Create(map[string]interface{}{"name": "m", "age": 3}), nil
 	}},
-	{`Save(&User{ID:4})`, "save", true, func(db *gorm.DB) (*gorm.DB, interface{}) {
+	{`Save(&User{ID:4})`, "save", true, false, func(db *gorm.DB) (*gorm.DB, interface{}) {
 		d := &User{ID: 4, Name: "s", Age: 44, CompanyID: 1}
 		return db.Save(d), d
+	}},
+	// the same with the table named by the finisher's own Model/Table call (a fresh value per execution)
+	{`Model(&User{}).Count`, "count", false, false, func(db *gorm.DB) (*gorm.DB, interface{}) { var n int64; return db.Model(&User{}).Count(&n), &n }},
+	{`Model(&User{}).Pluck("name")`, "pluck", false, false, func(db *gorm.DB) (*gorm.DB, interface{}) {
+		var d []string
+		return db.Model(&User{}).Pluck("name", &d), &d
+	}},
+	{`Table("users").Pluck("id")`, "pluck", false, false, func(db *gorm.DB) (*gorm.DB, interface{}) {
+		var d []int64
+		return db.Table("users").Pluck("id", &d), &d
+	}},
+	{`Model(&User{}).Scan(&[]nameAge)`, "scan", false, false, func(db *gorm.DB) (*gorm.DB, interface{}) {
+		var d []nameAge
+		return db.Model(&User{}).Scan(&d), &d
+	}},
+	{`Model(&User{}).Find(&[]map)`, "find", false, false, func(db *gorm.DB) (*gorm.DB, interface{}) {
+		var d []map[string]interface{}
+		return db.Model(&User{}).Find(&d), &d
+	}},
+	{`Model(&User{}).Updates(map{age:55})`, "update", true, false, func(db *gorm.DB) (*gorm.DB, interface{}) {
+		m := &User{}
+		return db.Model(m).Updates(map[string]interface{}{"age": 55}), m
+	}},
+	{`Model(&User{ID:5}).Update("name","z")`, "update", true, false, func(db *gorm.DB) (*gorm.DB, interface{}) {
+		m := &User{ID: 5}
+		return db.Model(m).Update("name", "z"), m
+	}},
+	{`Table("users").UpdateColumn("age",Expr(age+?,1))`, "update", true, false, func(db *gorm.DB) (*gorm.DB, interface{}) {
+		return db.Table("users").UpdateColumn("age", gorm.Expr("age + ?", 1)), nil
+	}},
+	{`Model(&User{}).Create(map{name:m})`, "create", true, false, func(db *gorm.DB) (*gorm.DB, interface{}) {
+		return db.Model(&User{}).Create(map[string]interface{}{"name": "m", "age": 3}), nil
 	}},
 }
 
 var (
-	finIndex = map[string]int{}
-	readFins []int
+	finIndex   = map[string]int{}
+	finsByKind = map[string][]int{}
+	finKinds   []string // in catalogue order
+	readKinds  []string
 )
 
 // ---- catalogue of derivations (how a chain becomes a reusable handle) ------------------------
@@ -501,9 +579,33 @@ type History struct {
 func callsText(cs []int) string {
 	parts := make([]string, len(cs))
 	for i, c := range cs {
-		parts[i] = calls[c].text
+		parts[i] = def(c).text
 	}
 	return strings.Join(parts, ".")
+}
+
+// callsTextFull renders handle arguments by their full derivation.
+func callsTextFull(cs []int, nodes map[int]*hnode) string {
+	parts := make([]string, len(cs))
+	for i, c := range cs {
+		d := def(c)
+		if d.argf != nil {
+			d.text = strings.Replace(d.text, fmt.Sprintf("h%d", d.arg), "<"+handleText(nodes[d.arg], nodes)+">", 1)
+		}
+		parts[i] = d.text
+	}
+	return strings.Join(parts, ".")
+}
+
+func handleText(n *hnode, nodes map[int]*hnode) string {
+	if n.parent == nil {
+		return "Open"
+	}
+	s := handleText(n.parent, nodes)
+	if len(n.st.calls) > 0 {
+		s += "." + callsTextFull(n.st.calls, nodes)
+	}
+	return s + "." + hows[n.st.how].text
 }
 
 func (a Action) String() string {
@@ -568,6 +670,32 @@ func (h *hnode) ancestors() []*hnode { // root first, h last
 	return append(h.parent.ancestors(), h)
 }
 
+// stateOf models what gorm keeps for a handle: raw = the calls that built the
+// *Statement object the handle points to, start = the calls a chain started
+// from the handle begins with. They differ for Session{NewDB:true} handles
+// (clone == 1: chains start from an empty statement, yet the handle still
+// points to the statement it was taken from - gorm reads that object when the
+// handle is passed as a group condition, and a further Session() straight on
+// the handle makes it the starting point again).
+func stateOf(n *hnode) (raw, start []int, newDB bool) {
+	if n.parent == nil {
+		return nil, nil, true
+	}
+	praw, pstart, pNewDB := stateOf(n.parent)
+	how := hows[n.st.how].text
+	sessionOnHandle := len(n.st.calls) == 0 && how != "Debug" && how != "Begin" // Debug/Begin call getInstance first
+	if sessionOnHandle {
+		raw = praw
+	} else {
+		raw = append(append([]int(nil), pstart...), n.st.calls...)
+	}
+	newDB = how == "Session{NewDB}" || (how == "Begin" && pNewDB && len(n.st.calls) == 0)
+	if !newDB {
+		start = raw
+	}
+	return
+}
+
 type cnode struct {
 	id          int
 	from        *hnode
@@ -578,21 +706,16 @@ type cnode struct {
 
 // path is what is replayed alone.
 type path struct {
-	steps []step
+	from  *hnode
+	nodes map[int]*hnode // the handles of the history (handle arguments are looked up here)
 	calls []int
 	fin   int
 }
 
 func (p path) String() string {
-	s := "Open"
-	for _, st := range p.steps {
-		if len(st.calls) > 0 {
-			s += "." + callsText(st.calls)
-		}
-		s += "." + hows[st.how].text
-	}
+	s := handleText(p.from, p.nodes)
 	if len(p.calls) > 0 {
-		s += "." + callsText(p.calls)
+		s += "." + callsTextFull(p.calls, p.nodes)
 	}
 	return s + "." + fins[p.fin].text
 }
@@ -602,7 +725,38 @@ func (p path) String() string {
 type outcome struct {
 	DrySQL, DryVars, DryErr      string
 	LiteStmts, LiteRes, LiteErr string
+	rows                         int64
 }
+
+// count labels the outcome of one finisher executed in the history (evidence
+// only: shows how many finishers produced SQL / rows rather than an error).
+func (o outcome) count() {
+	if o.DrySQL != "" {
+		evid.Class("outcome:dry-sql")
+	} else {
+		evid.Class("outcome:dry-error")
+	}
+	switch {
+	case o.LiteStmts == "(not run)":
+		evid.Class("outcome:twin-not-run(write in tx mode)")
+	case o.LiteErr != "":
+		evid.Class("outcome:twin-error")
+	case o.rows > 0:
+		evid.Class("outcome:twin-rows")
+	default:
+		evid.Class("outcome:twin-no-rows")
+	}
+	if errHist {
+		if o.DryErr != "" {
+			evid.Class("dry-err:" + o.DryErr)
+		}
+		if o.LiteErr != "" {
+			evid.Class("twin-err:" + o.LiteErr)
+		}
+	}
+}
+
+var errHist = harness.EnvInt("VERIF_C06_ERRHIST", 0) != 0
 
 func (o outcome) diff(w outcome) string {
 	var d []string
@@ -620,19 +774,98 @@ func (o outcome) diff(w outcome) string {
 	return strings.Join(d, "\n    ")
 }
 
-// render prints a value without addresses: pointers are followed.
+// render prints a value without addresses: pointers and interfaces are
+// followed at every depth, map keys are sorted.
 func render(v interface{}) string {
-	if v == nil {
-		return "<nil>"
+	var sb strings.Builder
+	renderTo(&sb, reflect.ValueOf(v), 0)
+	return sb.String()
+}
+
+var timeType = reflect.TypeOf(time.Time{})
+
+func renderTo(sb *strings.Builder, rv reflect.Value, depth int) {
+	if !rv.IsValid() {
+		sb.WriteString("nil")
+		return
 	}
-	rv := reflect.ValueOf(v)
-	for rv.Kind() == reflect.Ptr {
+	if depth > 8 {
+		sb.WriteString("…")
+		return
+	}
+	switch rv.Kind() {
+	case reflect.Ptr, reflect.Interface:
 		if rv.IsNil() {
-			return "<nil " + rv.Type().String() + ">"
+			sb.WriteString("nil")
+			return
 		}
-		rv = rv.Elem()
+		renderTo(sb, rv.Elem(), depth+1)
+	case reflect.Struct:
+		if rv.Type() == timeType {
+			if rv.CanInterface() {
+				sb.WriteString(rv.Interface().(time.Time).UTC().Format(time.RFC3339Nano))
+			} else {
+				sb.WriteString("time")
+			}
+			return
+		}
+		sb.WriteString(rv.Type().Name())
+		sb.WriteByte('{')
+		for i := 0; i < rv.NumField(); i++ {
+			if i > 0 {
+				sb.WriteByte(' ')
+			}
+			sb.WriteString(rv.Type().Field(i).Name)
+			sb.WriteByte(':')
+			renderTo(sb, rv.Field(i), depth+1)
+		}
+		sb.WriteByte('}')
+	case reflect.Slice, reflect.Array:
+		if rv.Kind() == reflect.Slice && rv.Type().Elem().Kind() == reflect.Uint8 {
+			fmt.Fprintf(sb, "bytes(%q)", rv.Bytes())
+			return
+		}
+		sb.WriteByte('[')
+		for i := 0; i < rv.Len(); i++ {
+			if i > 0 {
+				sb.WriteByte(' ')
+			}
+			renderTo(sb, rv.Index(i), depth+1)
+		}
+		sb.WriteByte(']')
+	case reflect.Map:
+		type kv struct{ k, v string }
+		var kvs []kv
+		for it := rv.MapRange(); it.Next(); {
+			var kb, vb strings.Builder
+			renderTo(&kb, it.Key(), depth+1)
+			renderTo(&vb, it.Value(), depth+1)
+			kvs = append(kvs, kv{kb.String(), vb.String()})
+		}
+		sort.Slice(kvs, func(i, j int) bool { return kvs[i].k < kvs[j].k })
+		sb.WriteString("map[")
+		for i, x := range kvs {
+			if i > 0 {
+				sb.WriteByte(' ')
+			}
+			sb.WriteString(x.k + ":" + x.v)
+		}
+		sb.WriteByte(']')
+	case reflect.String:
+		fmt.Fprintf(sb, "%q", rv.String())
+	case reflect.Bool:
+		fmt.Fprintf(sb, "%v", rv.Bool())
+	case reflect.Int, reflect.Int8, reflect.Int16, reflect.Int32, reflect.Int64:
+		fmt.Fprintf(sb, "%s(%d)", rv.Kind(), rv.Int())
+	case reflect.Uint, reflect.Uint8, reflect.Uint16, reflect.Uint32, reflect.Uint64:
+		fmt.Fprintf(sb, "%s(%d)", rv.Kind(), rv.Uint())
+	case reflect.Float32, reflect.Float64:
+		fmt.Fprintf(sb, "%s(%v)", rv.Kind(), rv.Float())
+	case reflect.Func, reflect.Chan, reflect.UnsafePointer:
+		sb.WriteString(rv.Kind().String())
+	default:
+		fmt.Fprintf(sb, "%s", rv.Kind())
 	}
-	return fmt.Sprintf("%T:%+v", rv.Interface(), rv.Interface())
 }
 
 func renderVars(vs []interface{}) string {
@@ -704,30 +937,54 @@ func runFin(e *env, p pair, fin int, mode string) outcome {
 	o.LiteStmts = sb.String()
 	o.LiteRes = fmt.Sprintf("rows=%d dest=%s", tx.RowsAffected, render(dest))
 	o.LiteErr = errText(tx.Error)
+	o.rows = tx.RowsAffected
 	if fd.write {
 		e.restore()
 	}
 	return o
 }
 
-func applyCalls(p pair, cs []int) pair {
+// applyCalls continues a chain (both twins) with the calls; res resolves a
+// handle id to the reusable handle of the current environment.
+func applyCalls(p pair, cs []int, res func(id int) pair) pair {
 	for _, c := range cs {
-		f := calls[c].f
-		p = pair{d: f(p.d), l: f(p.l)}
+		d := def(c)
+		if d.argf != nil {
+			a := res(d.arg)
+			p = pair{d: d.argf(p.d, a.d), l: d.argf(p.l, a.l)}
+			continue
+		}
+		p = pair{d: d.f(p.d), l: d.f(p.l)}
 	}
 	return p
 }
 
-// runAlone replays one path on a fresh Open (fresh dry handle, fresh database).
+func depth(n *hnode) int {
+	if n.parent == nil {
+		return 0
+	}
+	return depth(n.parent) + 1
+}
+
+// runAlone replays one path on a fresh Open (fresh dry handle, fresh database):
+// only the handles on the path (and the handles its calls take as arguments)
+// are built, nothing else is ever derived from them.
 func runAlone(p path, mode string) outcome {
 	e := newEnv()
 	defer e.close()
-	cur := e.root
-	for i, st := range p.steps {
-		cur = applyCalls(cur, st.calls)
-		cur = hows[st.how].f(e, cur, i+1)
+	built := map[int]pair{0: e.root}
+	var build func(n *hnode) pair
+	res := func(id int) pair { return build(p.nodes[id]) }
+	build = func(n *hnode) pair {
+		if b, ok := built[n.id]; ok {
+			return b
+		}
+		cur := applyCalls(build(n.parent), n.st.calls, res)
+		b := hows[n.st.how].f(e, cur, depth(n))
+		built[n.id] = b
+		return b
 	}
-	cur = applyCalls(cur, p.calls)
+	cur := applyCalls(build(p.from), p.calls, res)
 	return runFin(e, cur, p.fin, mode)
 }
 
@@ -751,20 +1008,22 @@ func run(h History) string {
 	cpair := map[int]pair{}
 	done := map[int]finished{}    // by action index
 	alone := map[string]outcome{} // path → outcome replayed alone
+	res := func(id int) pair { return hpair[id] }
 
 	check := func(i int, from *hnode, cs []int, fin int, got outcome) string {
-		p := path{steps: from.steps(), calls: cs, fin: fin}
+		got.count()
+		p := path{from: from, nodes: handles, calls: cs, fin: fin}
 		key := p.String()
 		want, ok := alone[key]
 		if !ok {
 			want = runAlone(p, h.Mode)
 			alone[key] = want
+		}
+		if d := got.diff(want); d != "" {
 			// the replay itself must be repeatable, otherwise the comparison means nothing
 			if again := runAlone(p, h.Mode); again != want {
 				return fmt.Sprintf("harness: path %s is not deterministic when replayed alone:\n    %s", key, again.diff(want))
 			}
-		}
-		if d := got.diff(want); d != "" {
 			return fmt.Sprintf("action #%d (%s): the chain %s gives a different outcome in the history than alone\n    %s", i, h.Actions[i], key, d)
 		}
 		return ""
@@ -778,24 +1037,24 @@ func run(h History) string {
 		switch a.Kind {
 		case "derive":
 			par := handles[a.H]
-			p := applyCalls(hpair[a.H], a.Calls)
+			p := applyCalls(hpair[a.H], a.Calls, res)
 			n := &hnode{id: a.New, parent: par, st: step{calls: a.Calls, how: a.How}}
 			handles[a.New] = n
-			hpair[a.New] = hows[a.How].f(e, p, len(n.steps()))
+			hpair[a.New] = hows[a.How].f(e, p, depth(n))
 		case "promote":
 			c := chains[a.C]
 			n := &hnode{id: a.New, parent: c.from, st: step{calls: c.calls, how: a.How}}
 			handles[a.New] = n
-			hpair[a.New] = hows[a.How].f(e, cpair[a.C], len(n.steps()))
+			hpair[a.New] = hows[a.How].f(e, cpair[a.C], depth(n))
 			delete(chains, a.C)
 			delete(cpair, a.C)
 		case "start":
 			chains[a.New] = &cnode{id: a.New, from: handles[a.H], calls: append([]int(nil), a.Calls...)}
-			cpair[a.New] = applyCalls(hpair[a.H], a.Calls)
+			cpair[a.New] = applyCalls(hpair[a.H], a.Calls, res)
 		case "extend":
 			c := chains[a.C]
 			c.calls = append(c.calls, a.Calls...)
-			cpair[a.C] = applyCalls(cpair[a.C], a.Calls)
+			cpair[a.C] = applyCalls(cpair[a.C], a.Calls, res)
 		case "finish":
 			c := chains[a.C]
 			got := runFin(e, cpair[a.C], a.Fin, h.Mode)
@@ -816,7 +1075,7 @@ func run(h History) string {
 			delete(cpair, a.C)
 		case "repeat":
 			f := done[a.Ref]
-			got := runFin(e, applyCalls(hpair[f.from.id], f.calls), f.fin, h.Mode)
+			got := runFin(e, applyCalls(hpair[f.from.id], f.calls, res), f.fin, h.Mode)
 			if v := check(i, f.from, f.calls, f.fin, got); v != "" {
 				return v
 			}
@@ -830,7 +1089,7 @@ func run(h History) string {
 func mergeFams(cs []int) map[string]bool {
 	m := map[string]bool{}
 	for _, c := range cs {
-		if f := calls[c].merge; f != "" {
+		if f := def(c).merge; f != "" {
 			m[f] = true
 		}
 	}
@@ -853,7 +1112,7 @@ func analyse(h History) (nontrivial bool, classes []string) {
 	burst := func(cs []int) {
 		run, prev := 0, ""
 		for _, c := range cs {
-			m := calls[c].merge
+			m := def(c).merge
 			if m != "" && m == prev {
 				run++
 			} else {
@@ -868,7 +1127,7 @@ func analyse(h History) (nontrivial bool, classes []string) {
 	for i, a := range h.Actions {
 		cl["action:"+a.Kind] = true
 		for _, c := range a.Calls {
-			cl["call:"+calls[c].fam] = true
+			cl["call:"+def(c).fam] = true
 		}
 		switch a.Kind {
 		case "derive":
@@ -912,14 +1171,8 @@ func analyse(h History) (nontrivial bool, classes []string) {
 	cl[fmt.Sprintf("handles:%d", len(handles))] = true
 	// cumulative calls of a handle and the calls a chain adds below an ancestor
 	cum := func(n *hnode) []int {
-		var cs []int
-		for _, st := range n.steps() {
-			if hows[st.how].text == "Session{NewDB}" {
-				cs = nil // a NewDB session starts from an empty statement
-			}
-			cs = append(cs, st.calls...)
-		}
-		return cs
+		_, start, _ := stateOf(n)
+		return start
 	}
 	below := func(c *chainInfo, anc *hnode) []int {
 		var cs []int
@@ -977,7 +1230,29 @@ func analyse(h History) (nontrivial bool, classes []string) {
 
 // ---- generator -------------------------------------------------------------------------------------------
 
-func drawCall(rt *rapid.T, prefer []string) int {
+// argHandle is a derived handle that a call may take as argument.
+type argHandle struct {
+	id     int
+	scopes bool // its accumulated statement holds Scopes
+	// singleOr: its accumulated WHERE is a single Or(...) condition
+	singleOr bool
+}
+
+func drawCall(rt *rapid.T, prefer []string, argHandles []argHandle) int {
+	// now and then a call whose argument is (a chain from) another reusable handle
+	if len(argHandles) > 0 && rapid.IntRange(0, 11).Draw(rt, "argCall") == 0 {
+		k := rapid.IntRange(0, len(argCalls)-1).Draw(rt, "argKind")
+		a := rapid.SampledFrom(argHandles).Draw(rt, "argHandle")
+		if a.scopes && strings.HasPrefix(argCalls[k].fam, "arg-group") && harness.OpenClass("C06", "group-arg-scopes") {
+			// listed finding: a handle holding Scopes passed as group condition loses its scopes
+			evid.Excluded("group-arg-scopes")
+		} else if a.singleOr && strings.HasPrefix(argCalls[k].fam, "arg-group") && harness.OpenClass("C06", "group-arg-single-or") {
+			// listed finding: BuildCondition rewrites the handle's single Or condition into an And group in place
+			evid.Excluded("group-arg-single-or")
+		} else {
+			return argBase + 10*k + a.id
+		}
+	}
 	// half of the time continue a merging family that the ancestors already hold
 	if len(prefer) > 0 && rapid.IntRange(0, 1).Draw(rt, "preferShared") == 1 {
 		f := rapid.SampledFrom(prefer).Draw(rt, "sharedFam")
@@ -1001,24 +1276,51 @@ func drawBurst(rt *rapid.T, prefer []string) []int {
 	return out
 }
 
+// whereShape lists, for the calls that built a statement, the expressions its
+// WHERE holds: true for a single Or(...) condition, false for anything else.
+// rawOf gives the calls behind the Statement object of a handle (a handle passed
+// as group condition contributes one And/Or group, or nothing if it has no WHERE).
+func whereShape(cs []int, rawOf func(id int) []int) []bool {
+	var shape []bool
+	for _, c := range cs {
+		d := def(c)
+		if d.merge != "WHERE" {
+			continue
+		}
+		switch {
+		case strings.HasPrefix(d.fam, "arg-group"):
+			if len(whereShape(rawOf(d.arg), rawOf)) > 0 {
+				shape = append(shape, isOr(c))
+			}
+		case d.text == `Clauses(Where{age>=20,id<6})`:
+			shape = append(shape, false, false)
+		default:
+			shape = append(shape, isOr(c))
+		}
+	}
+	return shape
+}
+
 // leadingOr recognises the known class `leading-or-handle`: the accumulated
 // WHERE of a handle starts with an Or(...) condition and continues with a
 // condition that is not an Or (Where / Not / Clauses(Where|Eq)). clause.Where.Build
 // moves the first non-Or expression to the front *in place*, i.e. in the Exprs
 // array the handle shares with every chain derived from it.
-func leadingOr(cs []int) bool {
-	first := true
-	lead := false
+func leadingOr(shape []bool) bool {
+	if len(shape) < 2 || !shape[0] {
+		return false
+	}
+	for _, or := range shape[1:] {
+		if !or {
+			return true
+		}
+	}
+	return false
+}
+
+func namesTable(cs []int) bool {
 	for _, c := range cs {
-		if calls[c].merge != "WHERE" {
-			continue
-		}
-		if first {
-			first = false
-			lead = calls[c].fam == "or"
-			continue
-		}
-		if lead && calls[c].fam != "or" {
+		if f := def(c).fam; f == "model" || f == "table" {
 			return true
 		}
 	}
@@ -1027,7 +1329,7 @@ func leadingOr(cs []int) bool {
 
 func holdsModel(cs []int) bool {
 	for _, c := range cs {
-		if calls[c].fam == "model" {
+		if def(c).fam == "model" {
 			return true
 		}
 	}
@@ -1052,18 +1354,43 @@ func genHistory(rt *rapid.T) History {
 
 	type gh struct {
 		id    int
-		calls []int // cumulative calls (for preferring shared families)
-		inTx  bool  // derived through Begin: a second Begin is an error in gorm (ErrInvalidTransaction), not generated
+		calls []int // the calls a chain started from the handle begins with (nil after Session{NewDB})
+		// raw: the calls that built the *Statement object the handle points to. A
+		// Session{NewDB:true} handle starts chains from an empty statement but still
+		// points to the Statement of the chain it was taken from; gorm reads that
+		// object when the handle is passed as a group condition.
+		raw  []int
+		node *hnode
+		inTx bool // derived through Begin: a second Begin is an error in gorm (ErrInvalidTransaction), not generated
 	}
 	type gc struct {
 		id    int
 		from  int
 		calls []int
 	}
-	handles := []gh{{id: 0}}
+	handles := []gh{{id: 0, node: &hnode{id: 0}}}
+	nextH, nextC := 1, 1
+	// newHandle computes the generator's view of the handle par.<cs>.<how>; ok is
+	// false when the handle falls in a listed known-finding class.
+	rawOf := func(id int) []int {
+		for _, x := range handles {
+			if x.id == id {
+				return x.raw
+			}
+		}
+		panic("no handle")
+	}
+	newHandle := func(par gh, cs []int, how int) (gh, bool) {
+		node := &hnode{id: nextH, parent: par.node, st: step{calls: cs, how: how}}
+		raw, start, _ := stateOf(node)
+		if skipLeadingOr && leadingOr(whereShape(raw, rawOf)) {
+			evid.Excluded("leading-or-handle")
+			return gh{}, false
+		}
+		return gh{id: nextH, node: node, calls: start, raw: raw, inTx: par.inTx || hows[how].tx}, true
+	}
 	var live []gc
 	var finishedAt []int
-	nextH, nextC := 1, 1
 	howsFor := func(inTx bool) []int {
 		var out []int
 		for i, hd := range hows {
@@ -1094,6 +1421,22 @@ func genHistory(rt *rapid.T) History {
 		return handleByID(rapid.SampledFrom(ids).Draw(rt, label))
 	}
 	prefer := func(cs []int) []string { return sortedKeys(mergeFams(cs)) }
+	argIDs := func() []argHandle { // handles usable as arguments: every derived handle
+		var ids []argHandle
+		for _, x := range handles[1:] {
+			a := argHandle{id: x.id}
+			for _, c := range x.raw {
+				if def(c).fam == "scopes" {
+					a.scopes = true
+				}
+			}
+			if sh := whereShape(x.raw, rawOf); len(sh) == 1 && sh[0] {
+				a.singleOr = true
+			}
+			ids = append(ids, a)
+		}
+		return ids
+	}
 	// D (domain): a Model value is a caller-owned object gorm writes to by
 	// contract (updated fields, RETURNING values, primary key used as condition).
 	// A Model pointer held by a handle is therefore never the target of a write
@@ -1101,9 +1444,21 @@ func genHistory(rt *rapid.T) History {
 	// communicate through the caller's object, not through gorm's state).
 	drawFin := func(handleCalls, chainCalls []int) int {
 		if holdsModel(handleCalls) && !holdsModel(chainCalls) {
-			return rapid.SampledFrom(readFins).Draw(rt, "readFin")
+			k := rapid.SampledFrom(readKinds).Draw(rt, "readKind")
+			return rapid.SampledFrom(finsByKind[k]).Draw(rt, "fin")
 		}
-		return rapid.IntRange(0, len(fins)-1).Draw(rt, "fin")
+		k := rapid.SampledFrom(finKinds).Draw(rt, "finKind")
+		cands := finsByKind[k]
+		// a chain that names no table mostly gets a finisher whose destination names one
+		if !namesTable(handleCalls) && !namesTable(chainCalls) && rapid.IntRange(0, 7).Draw(rt, "anyFin") != 0 {
+			cands = nil
+			for _, f := range finsByKind[k] {
+				if !fins[f].needs {
+					cands = append(cands, f)
+				}
+			}
+		}
+		return rapid.SampledFrom(cands).Draw(rt, "fin")
 	}
 
 	for i := 0; i < n; i++ {
@@ -1140,46 +1495,38 @@ func genHistory(rt *rapid.T) History {
 			par := pickHandle("parent")
 			var cs []int
 			for j := rapid.IntRange(0, 2).Draw(rt, "pre"); j > 0; j-- {
-				cs = append(cs, drawCall(rt, nil))
+				cs = append(cs, drawCall(rt, nil, argIDs()))
 			}
 			if rapid.IntRange(0, 9).Draw(rt, "withBurst") < 7 {
 				cs = append(cs, drawBurst(rt, prefer(par.calls))...)
 			}
 			for j := rapid.IntRange(0, 1).Draw(rt, "post"); j > 0; j-- {
-				cs = append(cs, drawCall(rt, nil))
+				cs = append(cs, drawCall(rt, nil, argIDs()))
 			}
 			how := rapid.SampledFrom(howsFor(par.inTx)).Draw(rt, "how")
-			cum := append(append([]int(nil), par.calls...), cs...)
-			if hows[how].text == "Session{NewDB}" {
-				cum = nil
-			}
-			if skipLeadingOr && leadingOr(cum) {
-				evid.Excluded("leading-or-handle")
+			nh, ok := newHandle(par, cs, how)
+			if !ok {
 				continue
 			}
 			h.Actions = append(h.Actions, Action{Kind: k, H: par.id, Calls: cs, How: how, New: nextH})
-			handles = append(handles, gh{id: nextH, calls: cum, inTx: par.inTx || hows[how].tx})
+			handles = append(handles, nh)
 			nextH++
 		case "promote":
 			ci := rapid.IntRange(0, len(live)-1).Draw(rt, "chain")
 			c := live[ci]
 			par := handleByID(c.from)
 			how := rapid.SampledFrom(howsFor(par.inTx)).Draw(rt, "how")
-			cum := append(append([]int(nil), par.calls...), c.calls...)
-			if hows[how].text == "Session{NewDB}" {
-				cum = nil
-			}
-			if skipLeadingOr && leadingOr(cum) {
-				evid.Excluded("leading-or-handle")
+			nh, ok := newHandle(par, c.calls, how)
+			if !ok {
 				continue
 			}
 			h.Actions = append(h.Actions, Action{Kind: k, C: c.id, How: how, New: nextH})
-			handles = append(handles, gh{id: nextH, calls: cum, inTx: par.inTx || hows[how].tx})
+			handles = append(handles, nh)
 			nextH++
 			live = append(live[:ci:ci], live[ci+1:]...)
 		case "start":
 			from := pickHandle("from")
-			cs := []int{drawCall(rt, prefer(from.calls))}
+			cs := []int{drawCall(rt, prefer(from.calls), argIDs())}
 			h.Actions = append(h.Actions, Action{Kind: k, H: from.id, Calls: cs, New: nextC})
 			live = append(live, gc{id: nextC, from: from.id, calls: cs})
 			nextC++
@@ -1191,7 +1538,7 @@ func genHistory(rt *rapid.T) History {
 			if rapid.IntRange(0, 5).Draw(rt, "extBurst") == 0 {
 				cs = drawBurst(rt, p)
 			} else {
-				cs = []int{drawCall(rt, p)}
+				cs = []int{drawCall(rt, p, argIDs())}
 			}
 			h.Actions = append(h.Actions, Action{Kind: k, C: c.id, Calls: cs})
 			c.calls = append(append([]int(nil), c.calls...), cs...)
@@ -1215,6 +1562,15 @@ func genHistory(rt *rapid.T) History {
 	// finish what is still live so that every built chain is observed
 	for _, c := range live {
 		h.Actions = append(h.Actions, Action{Kind: "finish", C: c.id, Fin: drawFin(handleByID(c.from).calls, c.calls)})
+	}
+	// probes: mostly, every derived handle is finally used once more directly, so that
+	// a lasting change made to it by the history is observed even if no generated chain follows
+	if rapid.IntRange(0, 4).Draw(rt, "probes") != 0 {
+		for _, x := range handles[1:] {
+			h.Actions = append(h.Actions,
+				Action{Kind: "direct", H: x.id, Fin: finIndex[`Find(&[]User)`]},
+				Action{Kind: "direct", H: x.id, Fin: finIndex[`Model(&User{}).Updates(map{age:55})`]})
+		}
 	}
 	return h
 }
@@ -1316,6 +1672,61 @@ func TestC06WitnessLeadingOrSwap(t *testing.T) {
 		{Kind: "start", H: 1, Calls: []int{idx(`Unscoped()`)}, New: 1},
 		{Kind: "finish", C: 1, Fin: finIndex[`Find(&[]User)`]},
 		{Kind: "direct", H: 1, Fin: finIndex[`Find(&[]User)`]},
+	}}
+	if v := run(hist); v != "" {
+		t.Errorf("C06 violated: %s\n  case: %s", v, hist)
+	}
+}
+
+// A reusable handle that holds Scopes, passed as group condition to Where:
+// Statement.BuildCondition calls executeScopes on the argument itself, which
+// clears the scopes of the caller's handle (and drops the conditions the scopes
+// would have added); every later chain from the handle lacks them.
+func TestC06WitnessGroupArgScopes(t *testing.T) {
+	build := func(db *gorm.DB) *gorm.DB { return db.Scopes(scopeAge).Session(&gorm.Session{}) }
+	var u0, u1 []User
+	alone := build(testdb.Dry(false, gorm.Config{NowFunc: fixedNow})).Find(&u0).Statement
+	db := testdb.Dry(false, gorm.Config{NowFunc: fixedNow})
+	h := build(db)
+	_ = db.Where(h) // another chain, built and abandoned
+	got := h.Find(&u1).Statement
+	if got.SQL.String() != alone.SQL.String() || renderVars(got.Vars) != renderVars(alone.Vars) {
+		t.Errorf("C06 violated: h := db.Scopes(age).Session(&gorm.Session{}); after db.Where(h), h.Find(&users) builds\n  %s %s\nalone it builds\n  %s %s",
+			got.SQL.String(), renderVars(got.Vars), alone.SQL.String(), renderVars(alone.Vars))
+	}
+	hist := History{Mode: "tx", Actions: []Action{
+		{Kind: "derive", H: 0, Calls: []int{idx(`Scopes(age)`)}, How: howIndex["Session{}"], New: 1},
+		{Kind: "start", H: 0, Calls: []int{argBase + 1}, New: 1}, // c1 = h0.Where(h1)
+		{Kind: "abandon", C: 1},
+		{Kind: "direct", H: 1, Fin: finIndex[`Find(&[]User)`]},
+	}}
+	if v := run(hist); v != "" {
+		t.Errorf("C06 violated: %s\n  case: %s", v, hist)
+	}
+}
+
+// A reusable handle whose WHERE is a single Or(...) condition, passed as group
+// condition: Statement.BuildCondition replaces Exprs[0] of the argument's WHERE
+// by an And group *in place*, i.e. in the handle's own statement; a later chain
+// from the handle renders `a AND b` where it renders `b OR a` alone.
+func TestC06WitnessGroupArgOr(t *testing.T) {
+	build := func(db *gorm.DB) *gorm.DB { return db.Or("age > ?", 40).Session(&gorm.Session{}) }
+	var u0, u1 []User
+	alone := build(testdb.Dry(false, gorm.Config{NowFunc: fixedNow})).Where("age >= ?", 20).Unscoped().Find(&u0).Statement
+	db := testdb.Dry(false, gorm.Config{NowFunc: fixedNow})
+	h := build(db)
+	_ = db.Where(h) // another chain, built and abandoned
+	got := h.Where("age >= ?", 20).Unscoped().Find(&u1).Statement
+	if got.SQL.String() != alone.SQL.String() || renderVars(got.Vars) != renderVars(alone.Vars) {
+		t.Errorf("C06 violated: h := db.Or(\"age > ?\",40).Session(&gorm.Session{}); after db.Where(h), h.Where(\"age >= ?\",20).Unscoped().Find(&users) builds\n  %s %s\nalone it builds\n  %s %s",
+			got.SQL.String(), renderVars(got.Vars), alone.SQL.String(), renderVars(alone.Vars))
+	}
+	hist := History{Mode: "tx", Actions: []Action{
+		{Kind: "derive", H: 0, Calls: []int{idx(`Or("age > ?",40)`)}, How: howIndex["Session{}"], New: 1},
+		{Kind: "start", H: 0, Calls: []int{argBase + 1}, New: 1}, // c1 = h0.Where(h1)
+		{Kind: "abandon", C: 1},
+		{Kind: "start", H: 1, Calls: []int{idx(`Where("age > ?",20)`), idx(`Unscoped()`)}, New: 2},
+		{Kind: "finish", C: 2, Fin: finIndex[`Find(&[]User)`]},
 	}}
 	if v := run(hist); v != "" {
 		t.Errorf("C06 violated: %s\n  case: %s", v, hist)
